@@ -67,11 +67,11 @@ impl Check for C08 {
     fn phases(&self, tier: Tier, b: f64) -> Vec<Phase> {
         let q = tier == Tier::Quick;
         vec![
-            Phase { name: "valid headers x styles x carriers", cases: scale(if q { 6000 } else { 150000 }, b), exhaustive: false },
+            Phase { name: "valid headers x styles x carriers", cases: scale(if q { 30000 } else { 150000 }, b), exhaustive: false },
             Phase { name: "complete single-fault neighbourhood of fixed base headers", cases: if q { 40 } else { 400 }, exhaustive: true },
-            Phase { name: "1-3 random faults", cases: scale(if q { 15000 } else { 400000 }, b), exhaustive: false },
-            Phase { name: "random maps over the label alphabet", cases: scale(if q { 15000 } else { 400000 }, b), exhaustive: false },
-            Phase { name: "all entry orders of small headers", cases: scale(if q { 300 } else { 6000 }, b), exhaustive: false },
+            Phase { name: "1-3 random faults", cases: scale(if q { 75000 } else { 400000 }, b), exhaustive: false },
+            Phase { name: "random maps over the label alphabet", cases: scale(if q { 75000 } else { 400000 }, b), exhaustive: false },
+            Phase { name: "all entry orders of small headers", cases: scale(if q { 1500 } else { 6000 }, b), exhaustive: false },
             Phase { name: "all 128 subsets of the typed fields", cases: 128, exhaustive: true },
         ]
     }
